@@ -333,6 +333,90 @@ class Mix(System):
                      type(st.r).__name__))[:300]
 
 
+class MixShared(Mix):
+    """the receiver SHARES its flow data with the first inlet (it is a flow proxy / a full proxy of it, or flow-linked to it): the
+    property's "whether the receiver is itself one of the inlets" for the same material under another Python object.
+    n = 1 or 2 inlets, both energy-balance settings, the sharing inlet first or last."""
+    name = 'c01.mixshared'
+    KINDS = ('flow_proxy', 'proxy', 'link')
+
+    def configs(self, tier, seed):
+        self._tier = tier
+        m = menu('quick' if tier == 'quick' else 'full')
+        cfgs = []
+        for kind in self.KINDS:
+            for eb in (False, True):
+                for t1 in m:
+                    if not any(tmpl_totals(t1).values()): continue
+                    if eb and not all(p in EB_PHASES for p in (t1[2] if t1[0] != 'M' else ''.join(t1[2]))): continue
+                    for last in (False, True): cfgs.append((kind, eb, last, t1))
+        k = seed % len(cfgs)
+        return cfgs[k:] + cfgs[:k]
+
+    def build(self, config):
+        kind, eb, last, t1 = config
+        st = St(); st.config = config
+        st.src = make(t1, T=300. if eb else None)
+        if kind == 'flow_proxy': st.r = st.src.flow_proxy()
+        elif kind == 'proxy': st.r = st.src.proxy()
+        else:
+            st.r = make(t1, T=320. if eb else None)
+            st.r.link_with(st.src, flow=True, phase=False, TP=False)
+        st.r0 = tmpl_totals(t1)
+        st.info = {}; st.done = None
+        return st
+
+    def actions(self, st):
+        kind, eb, last, t1 = st.config
+        m = menu('quick' if self._tier == 'quick' else 'full')
+        m = [t for t in m if sub(t[1], t1[1])]
+        if eb: m = [t for t in m if all(p in EB_PHASES for p in (t[2] if t[0] != 'M' else ''.join(t[2])))]
+        return ([()] if not last else []) + [(t2,) for t2 in m]
+
+    def step(self, st, a):
+        kind, eb, last, t1 = st.config
+        others_t = list(a)
+        others = [make(t, T=(310. if eb else None)) for t in others_t]
+        lst = (others + [st.src]) if last else ([st.src] + others)
+        shown = ([repr(t) for t in others_t] + ['sharing ' + repr(t1)]) if last else (['sharing ' + repr(t1)] + [repr(t) for t in others_t])
+        rp = t1[1]
+        exp = dict(tmpl_totals(t1))
+        for t in others_t: exp = add(exp, tmpl_totals(t))
+        for c in cas(rp): exp.setdefault(c, 0.)
+        ne_t = [t1] + [t for t in others_t if any(tmpl_totals(t).values())]
+        st.info = dict(collide=len(ne_t) >= 2 and any(sum(1 for t in ne_t if tmpl_totals(t).get(c, 0.)) >= 2 for c in cas(rp)), n=len(ne_t))
+        new_phase = False
+        if t1[0] == 'M':
+            have = set(t1[2]) | {q.swapcase() for q in t1[2]}
+            new_phase = any(q not in have for t in ne_t[1:] for q in (t[2] if t[0] != 'M' else t[2]))
+        match = dict(op='mix', recv='shares-flow:' + kind, recv_class=t1[0], eb=eb, nonempty=('0', '1', '2+')[min(len(ne_t), 2)],
+                     cross=any(t[1] != rp for t in ne_t), multi_inlet=any(t[0] == 'M' for t in ne_t[1:]), new_phase=new_phase)
+        try:
+            st.r.mix_from(lst, energy_balance=eb)
+        except Exception as e:
+            en = type(e).__name__
+            if eb and (where(e).split(':')[0] in ('mixture.py', 'free_energy.py', 'ideal_mixture_model.py', '_thermal_condition.py') or en in ('DomainError', 'InfeasibleRegion')):
+                raise Rejected('mix:energy-solve', cut=False)
+            raise Violation('unexpected-exception', f'{kind} of {t1!r}: mix_from([{", ".join(shown)}], energy_balance={eb}) raised {en}: {e}',
+                            match=dict(match, exc=en, where=where(e)))
+        got = totals(st.r)
+        if not eq_tot(got, exp):
+            raise Violation('mix-total', f'receiver = {kind} of {t1!r}: mix_from([{", ".join(shown)}], energy_balance={eb}): receiver holds {got!r}, the inlets sum to {exp!r} '
+                            f'(the sharing inlet now holds {totals(st.src)!r})', match=match)
+        for s_, t in zip(others, others_t):
+            if full_digest(s_) != tmpl_digest(t):
+                raise Violation('inlet-modified', f'mixing into a {kind} receiver changed inlet {t!r}', match=match)
+        st.done = (tuple(sorted(got.items())), type(st.r).__name__)
+        return ('ok', len(ne_t), st.info['collide'])
+
+    def invariants(self, st): return rep_invariant(st.r, 'receiver') + rep_invariant(st.src, 'sharing inlet')
+    def canon(self, st): return (st.config, st.done, full_digest(st.r), full_digest(st.src))
+    def nontrivial(self, st, a, obs): return st.info.get('n', 0) >= 1
+    def outcome(self, st, a, obs):
+        kind, eb, last, t1 = st.config
+        return repr((kind, eb, last, cls(t1), tuple(cls(t) + ':' + (t[2] if t[0] != 'M' else ''.join(t[2])) for t in a), obs, type(st.r).__name__))[:300]
+
+
 class Mix3(Mix):
     """the FULL ordered product of three inlet templates for one receiver (energy_balance=False): thorough = the full menu (139
     templates; receivers single-l and multi-gl) or the quick menu (71; single-g, multi-Lls) with the receiver not among the inlets
@@ -1002,5 +1086,5 @@ class History(System):
 
 
 UNIVERSE_4 = [(('S', 'A', 'l', 4), ('M', 'A', ('g', 'l'), 'both', 2), ('S', 'B', 'l', 2), ('S', 'C', 'g', 3))]
-SYSTEMS = [Mix(), Split(), SepCopy(), History(),
+SYSTEMS = [Mix(), MixShared(), Split(), SepCopy(), History(),
            History('c01.history4s', universes=UNIVERSE_4, depth_q=1, depth_t=3, tcap_t=300, vector_splits=True)] + [Mix3(r, full=r in ('single-l', 'multi-gl')) for r in RECEIVERS]
